@@ -4857,6 +4857,26 @@ impl PeerConnectionInner {
                     .await
                     .map_err(|err| RtcError::Internal(format!("RTP socket bind failed: {err}")))?;
             }
+            // SDES-SRTP gathers, waits for a candidate and otherwise binds a socket directly
+            // (further down). Do that before any MID is assigned, for the same reason.
+            if self.config.transport_mode == TransportMode::Srtp {
+                self.ice_transport.start_gathering().map_err(|err| {
+                    RtcError::InvalidState(format!("ICE gathering failed: {err}"))
+                })?;
+                self.wait_for_srtp_candidate().await;
+                if self.ice_transport.local_candidates().is_empty() {
+                    let needs_rtcp = !(self.config.rtcp_mux_policy
+                        == crate::config::RtcpMuxPolicy::Require
+                        && self.config.sdp_compatibility
+                            != crate::config::SdpCompatibilityMode::LegacySip);
+                    self.ice_transport
+                        .setup_direct_rtp_offer_with_rtcp(needs_rtcp)
+                        .await
+                        .map_err(|err| {
+                            RtcError::Internal(format!("RTP socket bind failed: {err}"))
+                        })?;
+                }
+            }
             for t in &transceivers {
                 self.ensure_mid(t);
             }
@@ -4904,17 +4924,7 @@ impl PeerConnectionInner {
         // For non-WebRTC (SRTP), wait for at least one candidate if none are available.
         // RTP mode already has candidates from setup_direct_rtp_offer above.
         if mode == TransportMode::Srtp {
-            let mut candidates = self.ice_transport.local_candidates();
-            if candidates.is_empty() {
-                let mut rx = self.ice_transport.subscribe_candidates();
-                let start = tokio::time::Instant::now();
-                let timeout_dur = tokio::time::Duration::from_millis(500);
-
-                while candidates.is_empty() && start.elapsed() < timeout_dur {
-                    let _ = tokio::time::timeout(timeout_dur - start.elapsed(), rx.recv()).await;
-                    candidates = self.ice_transport.local_candidates();
-                }
-            }
+            self.wait_for_srtp_candidate().await;
         }
 
         let ice_params = self.ice_transport.local_parameters();
@@ -5278,6 +5288,21 @@ impl PeerConnectionInner {
         }
 
         Ok(desc)
+    }
+
+    /// SDES-SRTP: wait (up to 500 ms) for at least one local candidate if none is available.
+    async fn wait_for_srtp_candidate(&self) {
+        let mut candidates = self.ice_transport.local_candidates();
+        if candidates.is_empty() {
+            let mut rx = self.ice_transport.subscribe_candidates();
+            let start = tokio::time::Instant::now();
+            let timeout_dur = tokio::time::Duration::from_millis(500);
+
+            while candidates.is_empty() && start.elapsed() < timeout_dur {
+                let _ = tokio::time::timeout(timeout_dur - start.elapsed(), rx.recv()).await;
+                candidates = self.ice_transport.local_candidates();
+            }
+        }
     }
 
     fn attach_sender_attributes(
